@@ -306,7 +306,8 @@ def worker(rec, shard, nshards, nrows, thorough, seed):
                                                     or (len(rk) == 2 and rk[0][0].startswith("delay")))]
     cases = []
     for n in range(1, nrows + 1):
-        menu_n = range(len(rowkinds)) if (thorough or n < nrows) else small
+        # the longest histories use the reduced row menu in both tiers (the full menu to the 4th power is ~1e7 files)
+        menu_n = range(len(rowkinds)) if n < nrows else small
         for combo in itertools.product(menu_n, repeat=n):
             cases.append(combo)
     for ci in core.shard_order(len(cases), shard, nshards, seed):
